@@ -18,6 +18,9 @@ CLAIMED = {
  "C02": dict(cat="fault_enumeration", ref="4.9", technique="fault injection by exhaustive enumeration of the capacity fault (c = 0..needed+8) per generated message/bundle on guarded destinations under ASan; pipeline stages ThreadLink(MaxMsg=c) and RtData::reply at the 8192-byte boundary",
    text="For every generated message (15 value tags, brackets, payload lengths in every residue mod 4, NULL blobs; varargs, array and arg-value constructors) and bundle (0..8 elements, nested to depth 4) the destination capacity is enumerated exhaustively from 0 to needed+8 on a guarded exact-size buffer: no byte outside is written, short capacities return 0 with the buffer zero-filled, sufficient ones return the exact size and the same bytes as a generous buffer, NULL-buffer queries return that size. This property has a fault and no schedule; it is claimed as fault enumeration and nothing more.",
    note="Trusted: guard bytes + AddressSanitizer red zones; the generator of objects is sampled (seeded), the capacities per object are exhaustive. Whether the encoding itself is right is C01 (not claimed). Varargs constructor through 24 fixed signatures."),
+ "C07": dict(cat="fault_enumeration", ref="4.10", technique="fault injection on simulated wire traffic: exhaustive enumeration of every single fault (truncation, bit flip, boundary length words, NUL damage, byte loss/duplication, splice, garbage) per valid base message, seeded multi-fault sequences; ASan exact-size blocks + independent strict decoder",
+   text="A sender emits valid generated messages (<= 512 bytes); for each one every single wire fault is enumerated exhaustively and seeded sequences of 2..4 faults are added; each damaged buffer is handed to the receiver in an exact-size heap block under AddressSanitizer: length/validity functions must stay inside, terminate and report 0 or <= n, and whenever the validator accepts, every accessor and the iterator must stay inside and agree with an independent strict-bounds decoder written in the harness. No schedule involved; claimed as fault enumeration. No coverage-guided fuzzing and no blind enumeration of all short buffers (other techniques).",
+   note="Trusted: AddressSanitizer, the reference decoder (lenient about padding content; unknown tags carry no data). Base messages are sampled (seeded); single faults per base message are exhaustive."),
 }
 PENDING = {}
 NA = {
